@@ -18,7 +18,7 @@
 (* previous token is a continuation token, a statement end, or there is    *)
 (* no previous token.  `ContinuationToks` is the list of the property.     *)
 (***************************************************************************)
-EXTENDS Integers, Sequences, FiniteSets, TLC, SequencesExt, FiniteSetsExt
+EXTENDS Integers, Sequences, FiniteSets, TLC, SequencesExt, FiniteSetsExt, SeedLexInts
 
 VARIABLES src, pos, line, col, mode, toks, err, last, str
 
@@ -98,14 +98,7 @@ ContinuationToks ==
      "SubEquals", "MulEquals", "DivEquals", "ModEquals", "Comma", "Dot", "ParenOpen", "BracketOpen",
      "BraceOpen"}
 
-MaxIntDigits == <<57, 50, 50, 51, 51, 55, 50, 48, 51, 54, 56, 53, 52, 55, 55, 53, 56, 48, 55>>  \* 9223372036854775807
-RECURSIVE SeqLeq(_, _, _)
-SeqLeq(a, b, i) == IF i > Len(a) THEN TRUE ELSE IF a[i] < b[i] THEN TRUE ELSE IF a[i] > b[i] THEN FALSE
-                   ELSE SeqLeq(a, b, i + 1)
-RECURSIVE StripZeros(_)
-StripZeros(ds) == IF Len(ds) > 1 /\ ds[1] = 48 THEN StripZeros(Tail(ds)) ELSE ds
-\* the digits (without `_`) denote a value up to 2^63 - 1
-FitsI64(ds) == LET z == StripZeros(ds) IN Len(z) < 19 \/ (Len(z) = 19 /\ SeqLeq(z, MaxIntDigits, 1))
+\* (the integer-literal rules: MaxIntDigits, StripZeros, FitsI64 -- module SeedLexInts)
 
 -----------------------------------------------------------------------------
 (* The machine *)
